@@ -49,6 +49,7 @@ fn main() {
         "C06" => props::c06::run(&report, &tier),
         "C07" => props::c07::run(&report, &tier),
         "C09" => props::c09::run(&report, &tier),
+        "C18" => props::c18::run(&report, &tier),
         "C10" => props::c10::run(&report, &tier),
         "C11" => props::c11::run(&report, &tier),
         "C12" => props::c12::run(&report, &tier),
